@@ -272,7 +272,7 @@ PROPS["C03"] = {
 
 PROPS["C04"] = {
     "modules": ["SlogModel.Props.C04"],
-    "components": [("disk", 400, 4000)],
+    "components": [("disk", 400, 4000), ("buffer", 40, 600)],
     "rule": "one case = one victim process (the harness binary re-executed) running the real hybridbuffer and spilling 1-6 chunks, "
             "one write of which suffers a fault: RLIMIT_FSIZE at byte offset k (short write then EFBIG), SIGKILL at a kill point "
             "of util.WriteFileAt (after open / first write / close / rename), or both (killed inside the write at offset k); "
@@ -280,7 +280,7 @@ PROPS["C04"] = {
             "n-1, n, n+5} x every kill point, plus random sizes; the directory left behind is compared byte for byte with "
             "Disk.victim, bad files are planted (zero-length, directory under a chunk name, stale temporary), the real buffer is "
             "restarted on the directory with a strict consumer and what it forwards / drops / leaves is compared with the model; "
-            "distinct by ops; all non-trivial",
+            "distinct by ops; all non-trivial. buffer: the C03 component, for its shutdown cases with two concurrent writers in one directory (Destroy racing hand-backs), judged by byte identity of every file",
     "level_text": "Theorems on the step-level disk model: C04_write_all_or_nothing (any limit: complete under the final name and "
                   "success, or failure and the final name untouched; temporary name gone; nothing else touched), "
                   "C04_crash_no_torn_final (kill at any step or inside the write at any offset), C04_no_torn_chunk_forwarded (every "
